@@ -327,7 +327,7 @@ PROPS['C17'] = dict(lean=['Mkdb.Props.C17'], facts=['skeleton.engine.Session.*',
          ' [round 2] plus 14 scripted sessions: every statement kind after a refused USE / refused CREATE DATABASE, with and without a database selected before. ',
     assumptions=['one session at a time (the engine has no concurrent sessions)'],
     trusted_base=['model Mkdb/Model/Session.lean over Engine.lean/Store.lean'])
-LOCK_FACTS = ['skeleton.engine.Evaluate*', 'skeleton.storage.fileStore.flushPages', 'skeleton.storage.newFileStore', 'skeleton.storage.RelationService.CreateTable',
+LOCK_FACTS = ['skeleton.storage.RelationService.Close', 'skeleton.storage.fileStore.close', 'skeleton.storage.fileStore.stopFlusher', 'skeleton.storage.fileStore.startFlusher', 'skeleton.engine.Evaluate*', 'skeleton.storage.fileStore.flushPages', 'skeleton.storage.newFileStore', 'skeleton.storage.RelationService.CreateTable',
               'skeleton.storage.RelationService.StartTxn', 'skeleton.storage.RelationService.EndTxn', 'storage.file_writers', 'storage.callers.*', 'skeleton.storage.wal.flush',
               'const.storage.pageFlushInterval', 'skeleton.storage.fileStore.open', 'skeleton.storage.OpenRelation', 'skeleton.storage.CreateDB', 'storage.newFileStore.autoFlush']
 PROPS['C13'] = dict(
@@ -338,7 +338,7 @@ PROPS['C13'] = dict(
           'C13_all_bracketed - a `decide` over facts re-extracted from the source on every run: every Evaluate* opens with '
           'StartTxn/defer EndTxn, the log append is inside the bracket, CREATE TABLE changes the catalog and flushes it as one section under the exclusive lock, flushPages '
           'holds the exclusive lock for its whole body, the data file is written only from flushPages, the flusher goroutine is started in one place only, as the last step of fileStore.open after every read of the header, and only the store OpenRelation returns has a flusher (CreateDB, which changes pages under no lock, has none); '
-          'C13_unbracketed_counterexample shows the hypothesis is needed. What the model cannot exhibit (Go memory model, RWMutex, '
+          'C13_unbracketed_counterexample shows the hypothesis is needed. C13_system_safe - the model of the WHOLE discipline around one open database (Mkdb/Model/LockSys.lean: the goroutine that opens the store - newFileStore, header reads, flusher start, newWal ok or failing - and then runs DML / SELECT / CREATE TABLE; the flusher; Close from the signal handler: stopFlusher, exclusive lock, log close, flush), parameterised by seven facts re-extracted from the source on every run: under EVERY schedule of any length none of six bad events occurs (a page or header write by another goroutine between a statement lock and its release, or between the change of CREATE TABLE and the end of its own flush; a log append on a closed log; a flush before the header was read; a flusher outliving a failed open; a page change while a flush walks the cache) - proved by an invariant whose one-step preservation is a finite table checked by kernel evaluation; C13_source_discipline_good / C13_current_source_safe instantiate it with the facts of the current source; C13_each_fact_is_needed: with any single fact false some schedule reaches a bad event (the defects 62bfa73, 873910e, 34a4346, 1b978f2 and two seeded changes, as schedules). What the model cannot exhibit (Go memory model, RWMutex, '
           'scheduler) is exercised, not proved: the harness is built with -race and run against the real 100 ms timer - statements are '
           'parked inside their log append for more than three ticks while page/header writes are counted (must be 0), and a storm of '
           'CREATE/INSERT/SELECT/UPDATE/DELETE across many ticks must leave the race detector silent; a session that opens the database and stays idle for three ticks (on an empty and on a filled file), a CREATE DATABASE slowed past three ticks and an open stalled for three ticks between creating the store and reading its header cover the start-up paths (they exposed the defects repaired in c8c2929 and 34a4346).',
@@ -350,5 +350,5 @@ PROPS['C13'] = dict(
          '1-5 s of CREATE TABLE + DML + SELECT on fresh tables across timer ticks under -race. Non-trivial: parked statements and a '
          'storm of more than 10 tables; distinct by scenario.',
     assumptions=['a data race on shared page/cache state is reported by the race detector when both accesses occur in the run'],
-    trusted_base=['model Mkdb/Model/Lock.lean; facts Mkdb/Generated/Locks.lean regenerated by tools/extract'],
+    trusted_base=['models Mkdb/Model/Lock.lean, Mkdb/Model/LockSys.lean (hand-written; tied to the source by the extracted facts only - the schedules of the real runtime are sampled by the race-detector runs); facts Mkdb/Generated/Locks.lean regenerated by tools/extract'],
 )
